@@ -35,6 +35,90 @@ fn errors(ts: TokenStream, out: &mut Vec<String>) {
     }
 }
 
+fn is_logos_attr(a: &syn::Attribute) -> bool {
+    let p = a.path();
+    p.is_ident("logos") || p.is_ident("token") || p.is_ident("regex")
+}
+
+/// attributes as comparable strings; derive lists become the list of their paths minus `Logos`
+fn attr_sig(attrs: &[syn::Attribute], drop_logos: bool) -> Vec<String> {
+    use quote::ToTokens;
+    let mut out = Vec::new();
+    for a in attrs {
+        if drop_logos && is_logos_attr(a) {
+            continue;
+        }
+        if a.path().is_ident("derive") {
+            let paths = a.parse_args_with(syn::punctuated::Punctuated::<syn::Path, syn::Token![,]>::parse_terminated);
+            match paths {
+                Ok(ps) => {
+                    let mut l = Vec::new();
+                    for p in ps {
+                        let last = p.segments.last().map(|s| s.ident.to_string()).unwrap_or_default();
+                        if drop_logos && last == "Logos" {
+                            continue;
+                        }
+                        l.push(p.to_token_stream().to_string().replace(' ', ""));
+                    }
+                    out.push(format!("derive[{}]", l.join(",")));
+                }
+                Err(_) => out.push(format!("derive-unparsable[{}]", a.to_token_stream())),
+            }
+        } else {
+            out.push(a.to_token_stream().to_string());
+        }
+    }
+    out
+}
+
+/// structural comparison of the stripped enum with the input enum (independent of how stripping is done)
+fn strip_check(input: &TokenStream, stripped: &str) -> Result<(), String> {
+    use quote::ToTokens;
+    let inp: syn::ItemEnum = syn::parse2(input.clone()).map_err(|e| format!("input not an enum: {e}"))?;
+    let out: syn::ItemEnum = syn::parse_str(stripped).map_err(|e| format!("output is not a valid enum: {e}"))?;
+    if inp.ident != out.ident || inp.generics.to_token_stream().to_string() != out.generics.to_token_stream().to_string()
+        || inp.vis.to_token_stream().to_string() != out.vis.to_token_stream().to_string() {
+        return Err("enum header changed".into());
+    }
+    let (a, b) = (attr_sig(&inp.attrs, true), attr_sig(&out.attrs, false));
+    if a != b {
+        return Err(format!("enum attributes: expected {:?} got {:?}", a, b));
+    }
+    if out.attrs.iter().any(is_logos_attr) {
+        return Err("a logos attribute survived".into());
+    }
+    if inp.variants.len() != out.variants.len() {
+        return Err("variant count changed".into());
+    }
+    for (vi, vo) in inp.variants.iter().zip(out.variants.iter()) {
+        if vi.ident != vo.ident {
+            return Err("variant renamed".into());
+        }
+        let (a, b) = (attr_sig(&vi.attrs, true), attr_sig(&vo.attrs, false));
+        if a != b {
+            return Err(format!("attributes of variant {}: expected {:?} got {:?}", vi.ident, a, b));
+        }
+        if vi.discriminant.as_ref().map(|d| d.1.to_token_stream().to_string()) != vo.discriminant.as_ref().map(|d| d.1.to_token_stream().to_string()) {
+            return Err("discriminant changed".into());
+        }
+        let fi: Vec<_> = vi.fields.iter().collect();
+        let fo: Vec<_> = vo.fields.iter().collect();
+        if fi.len() != fo.len() {
+            return Err("field count changed".into());
+        }
+        for (a, b) in fi.iter().zip(fo.iter()) {
+            if a.ty.to_token_stream().to_string() != b.ty.to_token_stream().to_string() || a.ident != b.ident {
+                return Err("field changed".into());
+            }
+            let (x, y) = (attr_sig(&a.attrs, true), attr_sig(&b.attrs, false));
+            if x != y {
+                return Err(format!("field attributes: expected {:?} got {:?}", x, y));
+            }
+        }
+    }
+    Ok(())
+}
+
 fn fnv(s: &str) -> u64 {
     let mut h: u64 = 0xcbf29ce484222325;
     for b in s.bytes() {
@@ -66,7 +150,13 @@ fn main() {
         if want_strip {
             let ts2 = ts.clone();
             match std::panic::catch_unwind(move || logos_codegen::strip_attributes(ts2).to_string()) {
-                Ok(o) => println!("STRIP {} {}", i, hex(&o)),
+                Ok(o) => {
+                    println!("STRIP {} {}", i, hex(&o));
+                    match strip_check(&ts, &o) {
+                        Ok(()) => println!("STRIPCHK {} OK", i),
+                        Err(e) => println!("STRIPCHK {} BAD {}", i, hex(&e)),
+                    }
+                }
                 Err(_) => println!("STRIP {} PANIC", i),
             }
         }
@@ -96,6 +186,9 @@ fn main() {
                 println!("CODE {} {:016x}", o.len(), fnv(&o));
                 if want_code {
                     println!("CODETEXT {}", hex(&o));
+                }
+                if want_strip {
+                    println!("CODEVALID {}", if syn::parse_str::<syn::File>(&o).is_ok() { 1 } else { 0 });
                 }
                 match logos_codegen::verif::take() {
                     Some(d) => print!("{}", d),
